@@ -334,6 +334,8 @@ def run(tier, seed):
     import envelope
     obs += guarded("C08.engine.envelope.guard_weighted@L334", lambda: envelope.guard_weighted("C08"))
     obs += guarded("C08.engine.vl.run_lemmas@L335", lambda: vl.run_lemmas("C08", ["lemma_fold", "merge_tree", "concat"]))
+    import rs_crosscheck
+    obs += guarded("C08.engine.rs_crosscheck", lambda: rs_crosscheck.crosscheck("C08", ['WeightedMean', 'WeightedMeanWithError']))
     meta = {
         "level": "proof",
         "checker_cmd": "./check C08 (rsx -> RS executor -> sympy / z3 QF_NRA; verus history.rs)",
